@@ -169,6 +169,21 @@ func c01Sequential(ev *vlib.Evidence, driver string, idx int, faults bool) {
 		minStr = o.min.String()
 	}
 	lw.note("config driver=%s price=%s interval=%s min=%s hosts=%d clients=%d wallets=%d", driver, o.price, o.interval, minStr, o.nh, o.nc, o.nw)
+	// most nodes are connected before the random part starts
+	for i, h := range lw.hosts {
+		if r.Intn(4) != 0 {
+			if err := lw.connect(h, true, fmt.Sprintf("192.0.2.%d:30000", i+1)); err == nil {
+				connected[h.NodeID] = true
+			}
+		}
+	}
+	for _, c := range lw.clients {
+		if r.Intn(4) != 0 {
+			if err := lw.connect(c, false, "192.0.2.250:30000"); err == nil {
+				connected[c.NodeID] = true
+			}
+		}
+	}
 	for s := 0; s < steps; s++ {
 		var failOp string
 		var failN int
@@ -393,15 +408,10 @@ func TestC01(t *testing.T) {
 		"(a) random sequential pool histories (connect, reconnect, billed keep-alives with random peer reports and elapsed times, peer requests, pool_addNode linking, deposits, forged requests; min balance in {nil,-1e6,0,1,1e6,1e20}) with the ledger total checked two ways after every operation; (b) the same with at most one injected failing store call per pool operation; (c) concurrent client updates against shared hosts with concurrent wallet linking and injected delays, ledger checked at quiescence; non-trivial = credit actually moved; distinct = distinct traces")
 	ev.Assume("fault discipline: at most one failing store call per pool operation (clause keys single-store-fault:*)")
 	for _, driver := range vlib.Drivers() {
-		for i := 0; i < vlib.Scale(150, 4000); i++ {
-			c01Sequential(ev, driver, i, false)
-		}
-		for i := 0; i < vlib.Scale(100, 3000); i++ {
-			c01Sequential(ev, driver, i, true)
-		}
-		for i := 0; i < vlib.Scale(15, 300); i++ {
-			c01Concurrent(ev, driver, i)
-		}
+		driver := driver
+		parallelCases(vlib.Scale(400, 8000), 8, func(i int) { c01Sequential(ev, driver, i, false) })
+		parallelCases(vlib.Scale(300, 6000), 8, func(i int) { c01Sequential(ev, driver, i, true) })
+		parallelCases(vlib.Scale(30, 600), 2, func(i int) { c01Concurrent(ev, driver, i) })
 	}
 	finish(t, ev)
 }
